@@ -60,7 +60,7 @@ class TapeMismatch(Exception):
     """the second computation asked the random stream for a different kind of draw than the first"""
 
 
-class ConcViolation(Exception):
+class ConcViolation(BaseException):
     def __init__(self, label, detail=""):
         super().__init__(f"{label}: {detail}")
         self.label = label
